@@ -196,7 +196,7 @@ class FnTranslator:
             if isinstance(n.op, ast.Pow):
                 if isinstance(n.left, ast.Constant) and n.left.value in (2, 2.0):
                     self.oracles.add('exp2')
-                    return ('(exp2 %s)' % self.toQ(self.expr(n.right, env)), 'Q')
+                    return self.lift([self.expr(n.right, env)], lambda vs: ('(exp2 %s)' % self.toQ(vs[0]), 'Q'))   # 2 ** nan = nan
                 if isinstance(n.right, ast.Constant) and isinstance(n.right.value, int) and not isinstance(n.right.value, bool) \
                         and 2 <= n.right.value <= 8:
                     k = n.right.value
@@ -230,6 +230,11 @@ class FnTranslator:
                     return ('(%s %s %s)' % (f, x, y), 'Q')
                 return self.lift([a, b], arith)
             if isinstance(n.op, ast.Div):
+                # `/` is read as Qdiv, which is total (x / 0 = 0); Python raises ZeroDivisionError (scalars) or yields
+                # inf / nan (numpy) at a zero divisor: that case is OUTSIDE the translation and recorded as a guard
+                g = '(%s) == 0   [division]' % ast.unparse(n.right)
+                if not (isinstance(n.right, ast.Constant) and n.right.value not in (0, 0.0)) and g not in self.guards:
+                    self.guards.append(g)
                 return self.lift([a, b], lambda vs: ('(Qdiv %s %s)' % (self.toQ(vs[0]), self.toQ(vs[1])), 'Q'))
             if isinstance(n.op, ast.FloorDiv):
                 if a[1] == 'Z' and b[1] == 'Z':
@@ -1197,8 +1202,16 @@ class FnTranslator:
                 COQTY['Y'] = 'list (%s)' % ' * '.join(COQTY[t] for t in self.yield_types)
                 env['yield__'] = ('(@nil (%s))' % ' * '.join(COQTY[t] for t in self.yield_types), 'Y')
                 self.loop_carried.append(('yield__', 'Y'))
-            self.loop_has_break = any(isinstance(x, ast.Break) for x in ast.walk(ast.Module(body=node.body, type_ignores=[]))
-                                      if not isinstance(x, (ast.For, ast.While)) or x is node)
+            def own_break(nodes):         # a `break` of THIS loop: not inside a loop nested in the body
+                for y in nodes:
+                    if isinstance(y, ast.Break):
+                        return True
+                    if isinstance(y, (ast.For, ast.While, ast.FunctionDef, ast.Lambda)):
+                        continue
+                    if own_break(list(ast.iter_child_nodes(y))):
+                        return True
+                return False
+            self.loop_has_break = own_break(node.body)
             body = list(node.body)
             for oq in sp.get('opaque', []):
                 nb = self.replace_opaque(body, oq, ast.unparse(ast.Module(body=list(node.body), type_ignores=[])))
@@ -1219,7 +1232,7 @@ class FnTranslator:
             stmts = stmts + [ast.Return(value=tup)]
         body = self.block(stmts, env, sp['ret'])
         params = ' '.join('(%s : %s)' % (c, COQTY[t]) for k, t, c in plist)
-        pre = ''.join('(* error path outside the translation: raises when  %s *)\n' % g for g in self.guards)
+        pre = ''.join('(* error path outside the translation: raises (or, for a division, yields inf / nan) when  %s *)\n' % g for g in self.guards)
         rty = sp['ret']
         rcoq = COQTY[rty] if isinstance(rty, str) else '(' + ' * '.join(COQTY[t] for t in rty) + ')%type'
         return pre + 'Definition %s %s : %s :=\n  %s.' % (sp['coq'], params, rcoq, body)
@@ -1249,13 +1262,7 @@ class FnTranslator:
                             if isinstance(x, ast.Name) and isinstance(x.ctx, ast.Store) and x.id not in declared:
                                 if _re.search(r'(?<![\w.])' + _re.escape(x.id) + r'(?![\w])', outside):
                                     raise Refuse('%s: the opaque range stores into %s, which is used outside it and not declared' % (self.rel, x.id))
-                            if isinstance(x, (ast.Break, ast.Continue)) and any(
-                                    isinstance(lp, (ast.For, ast.While)) and any(y is x for y in ast.walk(lp))
-                                    for lp in ast.walk(mod)):
-                                # [loop ties C18] a break / continue of a loop nested INSIDE the range ends an iteration
-                                # of that inner loop, not of the translated one
-                                continue
-                            if isinstance(x, (ast.Return, ast.Break, ast.Continue)):
+                            if isinstance(x, ast.Return):
                                 raise Refuse('%s: the opaque range leaves the iteration' % self.rel)
                             if isinstance(x, ast.Subscript) and isinstance(x.ctx, ast.Store) and isinstance(x.value, ast.Name) \
                                     and x.value.id not in declared and any(
@@ -1267,6 +1274,17 @@ class FnTranslator:
                                 continue
                             if isinstance(x, ast.Subscript) and isinstance(x.ctx, ast.Store):
                                 raise Refuse('%s: the opaque range stores into a container' % self.rel)
+                        def leaves(nodes):       # a break / continue that is not inside a loop of the range itself
+                            for y in nodes:
+                                if isinstance(y, (ast.Break, ast.Continue)):
+                                    return True
+                                if isinstance(y, (ast.For, ast.While, ast.FunctionDef, ast.Lambda)):
+                                    continue
+                                if leaves(list(ast.iter_child_nodes(y))):
+                                    return True
+                            return False
+                        if leaves(rng):
+                            raise Refuse('%s: the opaque range leaves the iteration' % self.rel)
                         has_yield = any(isinstance(x, (ast.Yield, ast.YieldFrom)) for x in ast.walk(mod))
                         if has_yield and not oq.get('yields'):
                             raise Refuse('%s: the opaque range yields but declares no `yields` parameter' % self.rel)
